@@ -924,7 +924,7 @@ def r18_13(ctx):
            "math.comb": __import__("math").comb}
     enter = {"curve.Math.bezier_caract_matrix", "curve.Math.horner_method", "curve.Math.comb", "curve.BezierCurve.degree",
              "curve.BezierCurve.npts", "curve.BezierCurve.ctrlpoints"}
-    nodes = (Fr(0), Fr(1, 3), Fr(1, 2), Fr(7, 8), Fr(1))
+    nodes = (Fr(0), Fr(1, 3), Fr(1, 2), Fr(7, 8), Fr(1), Fr(-1, 2), Fr(3, 2))     # "for every t": the polynomial, also beyond the ends
     for pts in ((Fr(2), Fr(-1)), (Fr(0), Fr(3), Fr(1)), (Fr(1), Fr(-2), Fr(4), Fr(3)), (Fr(1), Fr(0), Fr(5), Fr(-3), Fr(2), Fr(7))):
         d = len(pts) - 1
         B = Obj("B", ctrlpoints=tuple(pts), degree=d, npts=d + 1)
